@@ -1,48 +1,100 @@
 /-
-C08 — property theorems (TSDB record encoding).  Only property statements live here;
-helper lemmas are in Lemmas.lean.
+C08 — property theorems (TSDB record encoding is injective, delimiter-safe and type-faithful).
+Only property statements live here; every proof is a reference to a lemma of Lemmas.lean, so a
+statement cannot be weakened quietly to make a proof pass.
 -/
 import Verif.C08.Lemmas
 
 namespace Verif.C08
 open Verif.Py Verif.Tables
 
-/-- "escape and unescape are mutually inverse" (1/2): unescape undoes escape, for every string. -/
-theorem unescape_escape (s : List Char) : unescape (escape s) = .ok s := by
-  induction s with
-  | nil => rw [escape_nil]; rfl
-  | cons c s ih =>
-    rw [escape_cons]
-    unfold escChar
-    by_cases h1 : c = '\\'
-    · subst h1; simp [unescape, ih, Except.map]
-    · by_cases h2 : c = '\n'
-      · subst h2; simp [unescape, ih, Except.map]
-      · by_cases h3 : c = '@'
-        · subst h3; simp [unescape, ih, Except.map, tables_ok.2]
-        · rw [if_neg h1, if_neg h2, if_neg h3]; simp [unescape_cons_ne _ _ h1, ih, Except.map]
+/-! ## "escape and unescape are mutually inverse and unescape rejects malformed escapes" -/
 
-/-- "the encoded line never contains a raw newline [or a delimiter inside a value]". -/
-theorem escape_safe (s : List Char) : '\n' ∉ escape s ∧ '@' ∉ escape s := by
-  induction s with
-  | nil => rw [escape_nil]; simp
-  | cons c s ih =>
-    rw [escape_cons]
-    unfold escChar
-    by_cases h1 : c = '\\'
-    · subst h1; simp [ih]
-    · by_cases h2 : c = '\n'
-      · subst h2; simp [ih]
-      · by_cases h3 : c = '@'
-        · subst h3; simp [ih]
-        · simp [h1, h2, h3, ih]; exact ⟨fun h => h2 h.symm, fun h => h3 h.symm⟩
+/-- unescape undoes escape, for every string. -/
+theorem unescape_escape (s : List Char) : unescape (escape s) = .ok s := L.unescape_escape s
 
-/-- injectivity: two different values never get the same encoding. -/
-theorem escape_injective (a b : List Char) (h : escape a = escape b) : a = b := by
-  have ha := unescape_escape a
-  rw [h, unescape_escape] at ha
-  exact (Except.ok.inj ha).symm
+/-- escape undoes unescape on everything unescape accepts that could be an escaped value
+(no raw newline, no raw delimiter): the two functions are mutually inverse on the image of escape. -/
+theorem escape_unescape (t s : List Char) (h : unescape t = .ok s) (hn : '\n' ∉ t) (hd : '@' ∉ t) :
+    escape s = t := L.escape_unescape t s h hn hd
+
+/-- unescape succeeds exactly on well-escaped text (every backslash followed by one of `\ s n`);
+everything else is an error, never a guess. -/
+theorem unescape_rejects (t : List Char) : (∃ s, unescape t = .ok s) ↔ WellEscaped t = true :=
+  L.unescape_ok_iff t
+
+/-- an escaped value contains neither a raw newline nor a raw field delimiter. -/
+theorem escape_safe (s : List Char) : '\n' ∉ escape s ∧ '@' ∉ escape s := L.escape_safe s
+
+/-- two different values never have the same encoding. -/
+theorem escape_injective (a b : List Char) (h : escape a = escape b) : a = b := L.escape_injective a b h
+
+/-! ## "joining … and splitting that line returns the same values … exactly one field delimiter per
+column boundary … never contains a raw newline" -/
+
+/-- exactly one delimiter per column boundary. -/
+theorem join_delims (vs : List (Option (List Char))) (hne : vs ≠ []) :
+    (joinRaw vs).count fieldDelimiter = vs.length - 1 := by
+  have := count_joinWith '@' (vs.map (fun v => escape (v.getD []))) (by simpa using hne) (cols_no_delim vs)
+  simpa [joinRaw, tables_ok.2] using this
+
+/-- the encoded line never contains a raw newline. -/
+theorem join_no_newline (vs : List (Option (List Char))) : '\n' ∉ joinRaw vs := by
+  unfold joinRaw
+  rw [tables_ok.2]
+  apply not_mem_joinWith '@' '\n' _ (by decide)
+  intro p hp
+  simp only [List.mem_map] at hp
+  obtain ⟨v, _, rfl⟩ := hp
+  exact (L.escape_safe _).1
+
+/-- split ∘ join is the identity on records (the empty string and None coincide), with or without
+the trailing newline of a relation file line. -/
+theorem split_join (vs : List (Option (List Char))) (hne : vs ≠ []) :
+    splitRaw (joinRaw vs) = .ok (vs.map normEmpty)
+    ∧ splitRaw (joinRaw vs ++ ['\n']) = .ok (vs.map normEmpty) := by
+  have hnl := join_no_newline vs
+  have core : splitRaw (joinRaw vs) = .ok (vs.map normEmpty) := by
+    unfold splitRaw
+    rw [rstripChar_not_mem _ _ hnl]
+    unfold joinRaw
+    rw [tables_ok.2, splitOn_joinWith '@' _ (by simpa using hne) (cols_no_delim vs)]
+    exact mapM_cols vs
+  refine ⟨core, ?_⟩
+  have : splitRaw (joinRaw vs ++ ['\n']) = splitRaw (joinRaw vs) := by
+    unfold splitRaw
+    rw [rstripChar_snoc]
+  rw [this, core]
+
+/-- no value can create, merge or shift columns: records with the same encoding are equal
+(modulo ''/None). -/
+theorem join_injective (vs ws : List (Option (List Char))) (hv : vs ≠ []) (hw : ws ≠ [])
+    (h : joinRaw vs = joinRaw ws) : vs.map normEmpty = ws.map normEmpty := by
+  have a := (split_join vs hv).1
+  have b := (split_join ws hw).1
+  rw [h, b] at a
+  exact (Except.ok.inj a).symm
+
+/-! ## "casting the formatted form of an integer … returns the original value" -/
+
+theorem castInt_formatInt (i : Int) : castInt (formatInt i) = .ok i := L.castInt_formatInt i
+
+/-- strings: the formatted form is the string itself and casting a non-empty raw value is the identity. -/
+theorem castStr_formatStr (s : List Char) (h : s ≠ []) :
+    cast .string (format .string (.str s)) = .val (.str s) := by
+  cases s with
+  | nil => exact absurd rfl h
+  | cons c s => simp [format, cast]
+
+/-! ## non-vacuity and concrete instances (tests, labelled as such) -/
 
 example : escape ['a', '@', '\\', '\n'] = ['a', '\\', 's', '\\', '\\', '\\', 'n'] := by decide
+example : unescape ['\\', 'x'] = .error .tsdbError := by rfl
+example : joinRaw [some ['a', '@'], none, some []] = ['a', '\\', 's', '@', '@'] := by decide
+example : splitRaw ['a', '\\', 's', '@', '@', '\n'] = .ok [some ['a', '@'], none, none] := by rfl
+example : castInt (formatInt (-120)) = .ok (-120) := by rfl
+example : parseDate "8-sep-1999".toList = .ok ⟨1999, 9, 8, 0, 0, 0⟩ := by decide
+example : parseDate "apr-95 (15:31:01)".toList = .ok ⟨1995, 4, 1, 15, 31, 1⟩ := by decide
+example : parseDate (formatDate ⟨2002, 12, 1, 15, 31, 1⟩) = .ok ⟨2002, 12, 1, 15, 31, 1⟩ := by decide
 
 end Verif.C08
